@@ -31,6 +31,14 @@ CHECKS["C20"] = dict(
     technique="exhaustive finite-universe exploration of the real relation (all pairs, all triples on the matrix) under enumerated hash seeds",
 )
 
+CHECKS["C01"] = dict(
+    category="exploration",
+    text="Bounded-exhaustive enumeration of the executable core language M0 (mv/gen_prog.py): every typed operator tree of depth <= 2 (depth 3 with one compound child per level in the thorough tier) over Int/Bool/Str/Float with if-expressions, in each of 13 expression contexts (initialiser, print, implicit and explicit return, argument, if/while condition, index, f-string, field initialiser, ternary branch, reassignment, list element) plus unparenthesised forms with strictly different precedence; all for-ranges over {-1,0,1,3}^2 x incl/excl x steps x {literal, variable, compound} bounds; all control-flow nestings to depth 2 (3) of if / if-else / match / while / for-range / for-list at top level, in functions and in methods; 19 function-body shapes x 6 return types (incl. nullable) as function and method; definitions/reassignments from if/match (line, block, nested, in loops); classes (class arguments with/without def, fields, methods, explicit init, parents with arguments, two parents, operators); raise/handle (5 arm lists x 4 raised classes x 4 positions, nesting, escape, methods). Each program is transpiled with annotate off and on, the emitted Python executed, and printed lines + uncaught exception class compared with the reference rendering of the same tree executed by CPython.",
+    design_ref="DESIGN.md §4 C01",
+    note="Reference semantics = explicit reference rendering (mv/lang.py to_ref: explicit returns, explicit constructors, fully parenthesised) executed by CPython, since Mamba's documented operators are Python's. Programs the pipeline rejects are counted, not judged. Known findings C01-F1/F2 delimit two unrepaired defects by tag predicates.",
+    technique="bounded-exhaustive program enumeration (small-scope hypothesis) on the real pipeline with an executable reference model",
+)
+
 REASON_PENDING = "check not built yet in this session (see DESIGN.md Appendix D build order); nothing is claimed for it"
 
 
